@@ -77,8 +77,10 @@ impl BlockQuantizedGemm {
             return Err(GemmError::QuantBitsNotSupported);
         }
 
-        // Handle K=0 case here so we can rely on K > 0 in the kernels.
-        if lhs_k == 0 {
+        // Handle K=0 case here so we can rely on K > 0 in the kernels. Also
+        // return early if the output is empty, as the loops below require
+        // non-empty output matrices.
+        if lhs_k == 0 || out.is_empty() {
             out.fill(MaybeUninit::new(0.));
             return Ok(unsafe { out.assume_init() });
         }
